@@ -2,7 +2,10 @@
  * unconstrained arguments; the contract (contracts/utils_c14.h) supplies the precondition. */
 #include "sodium/utils.c"
 
-size_t g_k, g_j; int g_case; unsigned char *g_a0;
+size_t g_k, g_j; int g_case; unsigned char *g_a0; unsigned char g_old, g_old0, g_old1;
+
+/* assumed libc contract: explicit_bzero(s, n) sets s[0..n) to zero */
+void explicit_bzero(void *s, size_t n) { __builtin_memset(s, 0, n); }
 
 void sodium_misuse(void) { __CPROVER_assert(0, "sodium_misuse reachable"); __CPROVER_assume(0); }
 
@@ -13,3 +16,5 @@ void hu_increment(void) { unsigned char *a; size_t n; sodium_increment(a, n); }
 void hu_add(void)       { unsigned char *a; const unsigned char *b; size_t n; sodium_add(a, b, n); }
 void hu_sub(void)       { unsigned char *a; const unsigned char *b; size_t n; sodium_sub(a, b, n); }
 void hu_memzero(void)   { void *a; size_t n; sodium_memzero(a, n); }
+void hu_pad(void)       { size_t *p; unsigned char *b; size_t u, bs, m; sodium_pad(p, b, u, bs, m); }
+void hu_unpad(void)     { size_t *p; const unsigned char *b; size_t pl, bs; sodium_unpad(p, b, pl, bs); }
